@@ -921,10 +921,18 @@ def check_C01(ctx):
         bad = (d.get("bad") or [{}])[0] if isinstance(d, dict) else {}
         if d.get("verdict") != "timeout" or bad.get("entry") not in ("reader", "read", "wd_reader"):
             return False
-        # the input's last line is an unterminated % directive
-        s = rec.get("sample", "")
+        # what the reader delivers ends inside a % directive line: the input's last line is an unterminated % directive, or the
+        # input breaks off there (the character source ends at the first broken UTF-8 sequence)
+        if rec.get("hex"):
+            b = bytes.fromhex(rec["hex"])
+            try:
+                s = b.decode("utf-8")
+            except UnicodeDecodeError as e:
+                s = b[:e.start].decode("utf-8", "replace")
+        else:
+            s = rec.get("sample", "").split("\ufffd")[0]
         last = s.replace("\r", "\n").split("\n")[-1]
-        return rec.get("len", 0) <= 60 and last.lstrip("\ufeff").startswith("%")
+        return rec.get("len", 0) <= 4096 and last.lstrip("\ufeff").startswith("%")
     matchers = {"C01-directive-eof-hang": directive_eof}
     classify_mismatches(ctx, mism, recs, matchers, "an entry point panicked, aborted the process, did not return within 20 s, or an error failed to render (Totality!RunVerdict)")
     return finish(ctx, "model_checking",
